@@ -42,6 +42,8 @@ DEFAULT_PROFILE = {
     "guard_kinds": ["method", "method", "prop", "attr"],
     "yields": 0,
     "value_kinds": ["default"],
+    "p_any": 0.25,           # probability of from_.any() declarations
+    "p_reuse_ref": 0.15,     # the same callback referenced in a second group of the same owner
 }
 
 
@@ -102,6 +104,27 @@ def gen_spec(rng, profile=None, uid=None):
     for t in trans:
         t["events"].sort(key=events.index)
 
+    # from_.any() declarations: expanded onto every non-final state, after the explicit ones
+    any_decls = []
+    if rng.random() < P["p_any"]:
+        for _ in range(rng.choice([1, 1, 2])):
+            if rng.random() < 0.5 or len(events) >= len(EVENT_POOL):
+                ev = rng.choice(events)
+            else:
+                ev = rng.choice([e for e in EVENT_POOL if e not in events])
+                events.append(ev)
+            any_decls.append({"k": len(any_decls), "dst": rng.choice(sids), "event": ev})
+        order = sorted(any_decls, key=lambda d: (events.index(d["event"]), d["k"]))
+        for d in order:
+            d["copies"] = []
+            for s in sids:
+                if s in finals:
+                    continue
+                add_t(s, d["dst"], [d["event"]])
+                trans[-1]["i"] = len(trans) - 1
+                trans[-1]["from_any"] = d["k"]
+                d["copies"].append(trans[-1])
+
     # guards / validators
     gnames = [f"gd{k}" for k in range(P["n_guard_names"])]
     vnames = [f"vl{k}" for k in range(P["n_validator_names"])]
@@ -125,6 +148,11 @@ def gen_spec(rng, profile=None, uid=None):
             nm = rng.choice(vnames)
             t["validators"].append(nm)
             validators.setdefault(nm, None)
+    for d in any_decls:
+        first = d["copies"][0]
+        for c in d["copies"][1:]:
+            c["guards"] = [dict(g) for g in first["guards"]]
+            c["validators"] = list(first["validators"])
     amode = P["async_mode"]
 
     def is_async():
@@ -194,15 +222,29 @@ def gen_spec(rng, profile=None, uid=None):
         cbs[cid]["async"] = False
         return {"by": "obj", "cb": cid}
 
-    for t in trans:
-        for g in GROUPS_T:
+    def fill_refs(refs, groups):
+        made = []
+        for g in groups:
             if rng.random() < P["p_inline"]:
                 for _ in range(rng.choice([1, 1, 2])):
-                    t["refs"][g].append(inline_ref("t"))
+                    if made and rng.random() < P["p_reuse_ref"]:
+                        r = dict(rng.choice(made))
+                        if r not in refs[g] and not (r["by"] == "obj" and cbs[r["cb"]]["kind"] == "lambda"):
+                            refs[g].append(r)
+                            continue
+                    r = inline_ref("x")
+                    refs[g].append(r)
+                    made.append(r)
+
+    for t in trans:
+        if t.get("from_any") is not None and t is not any_decls[t["from_any"]]["copies"][0]:
+            continue
+        fill_refs(t["refs"], GROUPS_T)
+    for d in any_decls:
+        for c in d["copies"][1:]:
+            c["refs"] = {g: [dict(r) for r in d["copies"][0]["refs"][g]] for g in GROUPS_T}
     for s in sids:
-        for g in GROUPS_S:
-            if rng.random() < P["p_inline"]:
-                state_refs[s][g].append(inline_ref("s"))
+        fill_refs(state_refs[s], GROUPS_S)
     # decorators
     for e in events:
         for g in GROUPS_T:
@@ -238,6 +280,7 @@ def gen_spec(rng, profile=None, uid=None):
         "uid": uid, "states": states, "events": events, "transitions": trans,
         "state_refs": state_refs, "guards": guards, "validators": validators, "cbs": cbs,
         "providers": providers, "late": [], "opts": {"rtc": rtc, "allow": allow},
+        "any_decls": [{"k": d["k"], "dst": d["dst"], "event": d["event"], "proto": d["copies"][0]["i"]} for d in any_decls],
         "any_async": any_async, "state_field": "state",
     }
 
